@@ -3,7 +3,7 @@
 # Confirms: patch applies, builds, the 53 baseline tests pass (only the 3 always-failing ones fail),
 # the demonstration fails with the change and passes without it.
 ID=$1; X=$2; NEEDS=$3
-WT=/tmp/seed-$ID; OUT=/tmp/seed-$ID-out
+WT=/tmp/${PREFIX:-seed}-$ID; OUT=/tmp/${PREFIX:-seed}-$ID-out; LABEL=${LABEL:-$X}
 export GOFLAGS=-mod=mod GOPROXY=off GOSUMDB=off GOTOOLCHAIN=local
 cd $WT || exit 2
 git checkout -q -- . ; git clean -fdq
@@ -28,13 +28,13 @@ git apply -R $OUT/$X.patch.diff; git checkout -q -- .; git clean -fdq
 demo; without=$?
 echo "suite: unexpected failures=$bad ok-packages(counts,git)=$okpk ; demo with change exit=$with ; without exit=$without"
 if [ "$bad" = 0 ] && [ "$okpk" = 2 ] && [ $with != 0 ] && [ $without = 0 ]; then
-  D=/verif/seeded/$ID-$X; mkdir -p $D
+  D=/verif/seeded/$ID-$LABEL; mkdir -p $D
   cp $OUT/$X.patch.diff $D/patch.diff
   for f in $OUT/$X.demo*; do [ "${f##*.}" = log ] || cp $f $D/; done
   [ -f $OUT/$X.meta.txt ] && cp $OUT/$X.meta.txt $D/meta.txt
   python3 - <<PY
 import json
-json.dump({"property":"$ID","id":"$ID-$X","breaks":"$ID","needs":"""$NEEDS""",
+json.dump({"property":"$ID","id":"$ID-$LABEL","breaks":"$ID","needs":"""$NEEDS""",
  "confirmed":{"patch_applies":True,"builds":True,"baseline_53_pass":True,"demo_fails_with_change":True,"demo_passes_without":True,
   "commands":"tools/confirm_seed.sh $ID $X (git apply; go build ./...; go test -vet=off -count=1 ./...; demo; git apply -R; demo)"},
  "detected_by":[]}, open("$D/meta.json","w"), indent=1)
